@@ -53,6 +53,17 @@ def st_case(draw):
            "bl_off": draw(sgn) * draw(st.floats(0.0, 0.05)),
            # a different fit performed on the same object first: the measured fit must not see its leftovers
            "prior": draw(st.sampled_from([None, None, "bounds", "vary", "weight", "range", "expr"]))}
+    if draw(st.integers(0, 7)) == 0:
+        # coarse sampling: the fitted segment holds only a handful of points ("any sampling"): noise-free,
+        # unweighted, leastsq, half baseline / half indentation
+        n = draw(st.integers(5, 14))
+        key = "n_app" if cfg["segment"] == 0 else "n_ret"
+        curve[key] = n
+        curve["noise"] = 0.0
+        curve["tilt"] = 0.0
+        curve["sampling"] = "linear"
+        curve["z0"] = curve["depth"] * draw(st.floats(0.4, 1.0))
+        cfg.update(weight_cp=0, method="leastsq", prior=None, coarse=True)
     return {"curve": curve, "cfg": cfg}
 
 
@@ -129,7 +140,15 @@ def check_case(case, ctx):
     if s < 0.05:
         classes.append("weakly_identifiable")
     ctx.note_case(case, nontrivial=bool(ncont >= 20 and off), classes=classes)
-    if ncont < 8:
+    nseg = int(seg.sum())
+    nvar = 3
+    if cfg.get("coarse"):
+        classes.append("coarse")
+        # determined problem: more points than varied parameters + 1, >= 3 in contact, >= 2 on the baseline
+        if not (nseg > nvar + 1 and ncont >= 3 and nseg - ncont >= 2):
+            ctx.event("coarse_underdetermined_skipped")
+            return
+    elif ncont < 8:
         ctx.event("too_few_contact_points_skipped")
         return
     cp_init = curve["params"]["contact_point"] + cfg["cp_off"] * curve["depth"]
@@ -146,6 +165,8 @@ def check_case(case, ctx):
         return
     ctx.check(m["success"] is True, "not-successful", desc, f"success={m['success']!r}")
     tol = TOL[cfg["method"]]
+    if cfg.get("coarse"):
+        tol = 1e-5      # few points: the problem is determined but less well conditioned
     sig = curve["noise"] / np.sqrt(max(ncont, 1))
     # with weighting, the contact region carries less information: scale by the unweighted fraction
     if curve["noise"] and cfg["weight_cp"]:
